@@ -1,6 +1,7 @@
 import ScsiVerif.Props.C04
 import ScsiVerif.Std.DataIn2
 import ScsiVerif.Lemmas.Reserved
+import ScsiVerif.Lemmas.Bits
 /-!
 # C04 (continued) — whole-response theorems for the formats with variable-length descriptors
 
@@ -349,5 +350,375 @@ example : ∃ gs : List (Vals × List Vals), gs.length = 2 ∧ (∀ g ∈ gs, Tp
     simp only [List.mem_cons, List.not_mem_nil, or_false] at hp
     rcases hp with rfl | rfl <;> (intro g hg; revert g; decide)
   · exact ⟨by intro g hg; revert g; decide, rfl, by intro p hp; cases hp⟩
+
+/-! ## MODE SENSE(6) / MODE SENSE(10): one mode page, any block descriptors in front of it -/
+
+theorem get?_none_of_not_key (lay : Layout) (v : Vals) (k : String) (h : lay.all (fun kf => kf.1 != k) = true) :
+    (reported lay v).get? k = none := by
+  unfold PDict.get?
+  have : (reported lay v).find? (fun x => x.1 == k) = none := by
+    rw [List.find?_eq_none]
+    intro x hx
+    have hk : x.1 ∈ (reported lay v).map (·.1) := List.mem_map.mpr ⟨x, hx, rfl⟩
+    rw [reported_keys] at hk
+    obtain ⟨kf, hkf, hkf'⟩ := List.mem_map.mp hk
+    simp only [List.all_eq_true, bne_iff_ne, ne_eq] at h
+    have := h kf hkf
+    rw [hkf'] at this
+    simpa using this
+  rw [this]; rfl
+
+/-- the tables of one MODE SENSE class, with the facts the theorems need (all decided by the kernel on
+    the regenerated tables) -/
+structure ModeTables where
+  zero : Layout
+  sub : Layout
+  ea : Layout
+  ctl : Layout
+  ctl1 : Layout
+  dr : Layout
+  zero_c : compatible zero modePage0Header.rel 2 = true
+  sub_c : compatible sub modeSubPageHeader.rel 4 = true
+  ea_c : compatible ea modeElementAddress.rel 18 = true
+  ctl_c : compatible ctl modeControl.rel 10 = true
+  ctl1_c : compatible ctl1 modeControlExt.rel 28 = true
+  dr_c : compatible dr modeDisconnect.rel 14 = true
+  zero_pc : (match layoutGet? zero "page_code" with | some (.bits _ _) => true | _ => false) = true
+  sub_pc : (match layoutGet? sub "page_code" with | some (.bits _ _) => true | _ => false) = true
+  sub_sp : (match layoutGet? sub "sub_page_code" with | some (.bits _ _) => true | _ => false) = true
+  zero_nosub : zero.all (fun kf => kf.1 != "sub_page_code") = true
+  d_ea : keysDisjoint zero ea = true
+  d_ctl : keysDisjoint zero ctl = true
+  d_dr : keysDisjoint zero dr = true
+  d_ctl1 : keysDisjoint sub ctl1 = true
+
+theorem getInt_of_bitsKey (lay : Layout) (v : Vals) (k : String)
+    (h : (match layoutGet? lay k with | some (.bits _ _) => true | _ => false) = true) :
+    getInt (reported lay v) k = .ok (v k) := by
+  cases hq : layoutGet? lay k with
+  | none => rw [hq] at h; cases h
+  | some f =>
+    cases f with
+    | blob u o l => rw [hq] at h; cases h
+    | bits m off => exact getInt_reported lay v k m off hq
+
+/-- which body table the page_0 branch of the decoder applies for a page code -/
+def page0Body (T : ModeTables) (pc : Nat) : Option (Block × Layout) :=
+  if pc = 0x1D then some (modeElementAddress, T.ea)
+  else if pc = 0x0A then some (modeControl, T.ctl)
+  else if pc = 0x02 then some (modeDisconnect, T.dr)
+  else none
+
+theorem page0Body_c (T : ModeTables) (pc : Nat) (B : Block) (lay : Layout) (h : page0Body T pc = some (B, lay)) :
+    compatible lay B.rel B.len = true ∧ keysDisjoint T.zero lay = true := by
+  unfold page0Body at h
+  split at h
+  · injection h with h; injection h with h1 h2; subst h1; subst h2; exact ⟨T.ea_c, T.d_ea⟩
+  split at h
+  · injection h with h; injection h with h1 h2; subst h1; subst h2; exact ⟨T.ctl_c, T.d_ctl⟩
+  split at h
+  · injection h with h; injection h with h1 h2; subst h1; subst h2; exact ⟨T.dr_c, T.d_dr⟩
+  · cases h
+
+/-- page_0 format page whose parameters the library knows (Control 0Ah, Disconnect-Reconnect 02h,
+    Element Address Assignment 1Dh): header fields and every parameter of the page -/
+theorem modePage_page0_known (T : ModeTables) (pv bv : Vals) (B : Block) (lay : Layout)
+    (hp : InRangeD modePage0Header.rel pv) (hspf : pv "spf" = 0) (hB : page0Body T (pv "page_code") = some (B, lay))
+    (hb : InRangeD B.rel bv) (tr : Bytes) :
+    Dec.modePage (encModePage0 pv (B.enc bv) ++ tr) T.zero T.sub T.ea T.ctl T.ctl1 T.dr =
+      .ok (reported T.zero pv ++ reported lay bv) := by
+  obtain ⟨hc, hd⟩ := page0Body_c T _ B lay hB
+  have hf := compatible_format T.zero_c
+  obtain ⟨x, hx, hxv⟩ := idx_bit modePage0Header hf pv hp (B.enc bv ++ tr) ⟨"spf", 0, 6, 1⟩ (by decide) rfl
+  have e : encModePage0 pv (B.enc bv) ++ tr = modePage0Header.enc pv ++ (B.enc bv ++ tr) := by
+    unfold encModePage0; simp
+  unfold Dec.modePage
+  rw [e, hx]
+  simp only [bind, Except.bind, pure, Except.pure]
+  have hx0 : x &&& 0x40 = 0 := by
+    have : x &&& 2 ^ 6 = 0 := by rw [hxv, hspf]; rfl
+    simpa using this
+  rw [if_pos hx0, decodeInto_std_nil _ _ T.zero_c pv hp _]
+  dsimp only
+  rw [getInt_of_bitsKey _ pv "page_code" T.zero_pc, get?_none_of_not_key _ pv _ T.zero_nosub]
+  dsimp only
+  rw [List.drop_left' (show (modePage0Header.enc pv).length = 2 from enc_length _ _)]
+  have hdec := decodeInto_std lay B hc bv hb tr (reported T.zero pv) (keysDisjoint_spec hd pv)
+  unfold page0Body at hB
+  by_cases h1 : pv "page_code" = 0x1D
+  · rw [if_pos h1] at hB
+    injection hB with hB; injection hB with hB1 hB2; subst hB1; subst hB2
+    rw [if_pos h1, hdec]
+    have h2 : ¬ pv "page_code" = 0x0A := by omega
+    have h3 : ¬ pv "page_code" = 0x02 := by omega
+    simp [h2, h3]
+  · rw [if_neg h1] at hB
+    rw [if_neg h1]
+    by_cases h2 : pv "page_code" = 0x0A
+    · rw [if_pos h2] at hB
+      injection hB with hB; injection hB with hB1 hB2; subst hB1; subst hB2
+      have h3 : ¬ pv "page_code" = 0x02 := by omega
+      simp [h2, h3, hdec]
+    · rw [if_neg h2] at hB
+      by_cases h3 : pv "page_code" = 0x02
+      · rw [if_pos h3] at hB
+        injection hB with hB; injection hB with hB1 hB2; subst hB1; subst hB2
+        simp [h2, h3, hdec]
+      · rw [if_neg h3] at hB; cases hB
+
+/-- page_0 format page with any other page code: the header fields, nothing invented from the body -/
+theorem modePage_page0_other (T : ModeTables) (pv : Vals) (body : Bytes)
+    (hp : InRangeD modePage0Header.rel pv) (hspf : pv "spf" = 0) (hB : page0Body T (pv "page_code") = none) (tr : Bytes) :
+    Dec.modePage (encModePage0 pv body ++ tr) T.zero T.sub T.ea T.ctl T.ctl1 T.dr = .ok (reported T.zero pv) := by
+  have hf := compatible_format T.zero_c
+  obtain ⟨x, hx, hxv⟩ := idx_bit modePage0Header hf pv hp (body ++ tr) ⟨"spf", 0, 6, 1⟩ (by decide) rfl
+  have e : encModePage0 pv body ++ tr = modePage0Header.enc pv ++ (body ++ tr) := by
+    unfold encModePage0; simp
+  unfold Dec.modePage
+  rw [e, hx]
+  simp only [bind, Except.bind, pure, Except.pure]
+  have hx0 : x &&& 0x40 = 0 := by
+    have : x &&& 2 ^ 6 = 0 := by rw [hxv, hspf]; rfl
+    simpa using this
+  rw [if_pos hx0, decodeInto_std_nil _ _ T.zero_c pv hp _]
+  dsimp only
+  rw [getInt_of_bitsKey _ pv "page_code" T.zero_pc]
+  dsimp only
+  unfold page0Body at hB
+  by_cases h1 : pv "page_code" = 0x1D
+  · rw [if_pos h1] at hB; cases hB
+  · rw [if_neg h1] at hB
+    by_cases h2 : pv "page_code" = 0x0A
+    · rw [if_pos h2] at hB; cases hB
+    · rw [if_neg h2] at hB
+      by_cases h3 : pv "page_code" = 0x02
+      · rw [if_pos h3] at hB; cases hB
+      · simp [h1, h2, h3]
+
+theorem get?_some_of_bitsKey (lay : Layout) (v : Vals) (k : String)
+    (h : (match layoutGet? lay k with | some (.bits _ _) => true | _ => false) = true) :
+    ((reported lay v).get? k).isSome = true := by
+  cases hq : layoutGet? lay k with
+  | none => rw [hq] at h; cases h
+  | some f => rw [get?_reported lay v k f hq]; rfl
+
+/-- sub_page format, Control Extension page (0Ah / 01h): header fields and every parameter -/
+theorem modePage_control_ext (T : ModeTables) (pv bv : Vals)
+    (hp : InRangeD modeSubPageHeader.rel pv) (hspf : pv "spf" = 1) (hpc : pv "page_code" = 0x0A)
+    (hsp : pv "sub_page_code" = 1) (hb : InRangeD modeControlExt.rel bv) (tr : Bytes) :
+    Dec.modePage (encModeSubPage pv (modeControlExt.enc bv) ++ tr) T.zero T.sub T.ea T.ctl T.ctl1 T.dr =
+      .ok (reported T.sub pv ++ reported T.ctl1 bv) := by
+  have hf := compatible_format T.sub_c
+  obtain ⟨x, hx, hxv⟩ := idx_bit modeSubPageHeader hf pv hp (modeControlExt.enc bv ++ tr) ⟨"spf", 0, 6, 1⟩ (by decide) rfl
+  have e : encModeSubPage pv (modeControlExt.enc bv) ++ tr = modeSubPageHeader.enc pv ++ (modeControlExt.enc bv ++ tr) := by
+    unfold encModeSubPage; simp
+  unfold Dec.modePage
+  rw [e, hx]
+  simp only [bind, Except.bind, pure, Except.pure]
+  have hx0 : ¬ x &&& 0x40 = 0 := by
+    have : x &&& 2 ^ 6 = 64 := by rw [hxv, hspf]; rfl
+    have : x &&& 0x40 = 64 := by simpa using this
+    omega
+  rw [if_neg hx0, decodeInto_std_nil _ _ T.sub_c pv hp _]
+  dsimp only
+  rw [getInt_of_bitsKey _ pv "page_code" T.sub_pc, hpc]
+  dsimp only
+  rw [List.drop_left' (show (modeSubPageHeader.enc pv).length = 4 from enc_length _ _)]
+  have hs := get?_some_of_bitsKey T.sub pv "sub_page_code" T.sub_sp
+  have hdec := decodeInto_std T.ctl1 modeControlExt T.ctl1_c bv hb tr (reported T.sub pv) (keysDisjoint_spec T.d_ctl1 pv)
+  simp [hs, getInt_of_bitsKey _ pv "sub_page_code" T.sub_sp, hsp, hdec]
+
+/-- MODE SENSE(6): header fields, BLOCK DESCRIPTOR LENGTH bytes of block descriptors skipped, then the page -/
+theorem modeSense6_frame (hdr : Layout) (hc : compatible hdr modeHeader6.rel 4 = true) (T : ModeTables)
+    (hv : Vals) (bd page tr : Bytes) (hh : InRangeD modeHeader6.rel hv) (hbd : hv "block_descriptor_length" = bd.length) :
+    (do let result ← decodeInto (slice (encModeSense6 hv bd page ++ tr) 0 4) hdr []
+        let bdl ← idx (encModeSense6 hv bd page ++ tr) 3
+        let r ← Dec.modePage ((encModeSense6 hv bd page ++ tr).drop (4 + bdl)) T.zero T.sub T.ea T.ctl T.ctl1 T.dr
+        pure (PV.dict (result.set "mode_pages" (.list [.dict r])))) =
+    (do let r ← Dec.modePage (page ++ tr) T.zero T.sub T.ea T.ctl T.ctl1 T.dr
+        pure (PV.dict ((reported hdr hv).set "mode_pages" (.list [.dict r])))) := by
+  have e : encModeSense6 hv bd page ++ tr = modeHeader6.enc hv ++ (bd ++ (page ++ tr)) := by
+    unfold encModeSense6; simp
+  obtain ⟨x, hx, hxv⟩ := idx_top_field modeHeader6 (compatible_format hc) hv hh (bd ++ (page ++ tr))
+    ⟨"block_descriptor_length", 3, 7, 8⟩ (by decide) rfl (by decide)
+  simp only [Nat.sub_self, Nat.shiftRight_zero] at hxv
+  rw [e, slice_prefix _ _ 4 (enc_length _ _)]
+  have := decodeInto_std_nil hdr modeHeader6 hc hv hh []
+  rw [List.append_nil] at this
+  rw [this, hx]
+  simp only [bind, Except.bind, pure, Except.pure]
+  rw [hxv, hbd, ← List.drop_drop, List.drop_left' (show (modeHeader6.enc hv).length = 4 from enc_length _ _), List.drop_left' rfl]
+
+
+theorem bdl10 (hdr : Layout) (hc : compatible hdr modeHeader10.rel 8 = true)
+    (hv : Vals) (t : Bytes) (hh : InRangeD modeHeader10.rel hv) :
+    b2i (slice (modeHeader10.enc hv ++ t) 6 8) = hv "block_descriptor_length" := by
+  have hmem : (⟨"block_descriptor_length", 6, 7, 16⟩ : DField) ∈ modeHeader10.rel := by decide
+  exact b2i_slice_field modeHeader10 (compatible_format hc) hv hh t
+    ⟨"block_descriptor_length", 6, 7, 16⟩ hmem 2 rfl rfl (by decide)
+
+/-- MODE SENSE(10): same with the 8-byte header and the 2-byte BLOCK DESCRIPTOR LENGTH -/
+theorem modeSense10_frame (hdr : Layout) (hc : compatible hdr modeHeader10.rel 8 = true) (T : ModeTables)
+    (hv : Vals) (bd page tr : Bytes) (hh : InRangeD modeHeader10.rel hv) (hbd : hv "block_descriptor_length" = bd.length) :
+    (do let result ← decodeInto (slice (encModeSense10 hv bd page ++ tr) 0 8) hdr []
+        let r ← Dec.modePage ((encModeSense10 hv bd page ++ tr).drop (8 + b2i (slice (encModeSense10 hv bd page ++ tr) 6 8)))
+          T.zero T.sub T.ea T.ctl T.ctl1 T.dr
+        pure (PV.dict (result.set "mode_pages" (.list [.dict r])))) =
+    (do let r ← Dec.modePage (page ++ tr) T.zero T.sub T.ea T.ctl T.ctl1 T.dr
+        pure (PV.dict ((reported hdr hv).set "mode_pages" (.list [.dict r])))) := by
+  have e : encModeSense10 hv bd page ++ tr = modeHeader10.enc hv ++ (bd ++ (page ++ tr)) := by
+    unfold encModeSense10; simp
+  rw [e, slice_prefix _ _ 8 (enc_length _ _), bdl10 hdr hc hv _ hh]
+  have := decodeInto_std_nil hdr modeHeader10 hc hv hh []
+  rw [List.append_nil] at this
+  rw [this]
+  simp only [bind, Except.bind, pure, Except.pure]
+  rw [hbd, ← List.drop_drop, List.drop_left' (show (modeHeader10.enc hv).length = 8 from enc_length _ _), List.drop_left' rfl]
+
+def T6 : ModeTables where
+  zero := Gen.MODESENSE6_page_zero_bits
+  sub := Gen.MODESENSE6_sub_page_bits
+  ea := Gen.MODESENSE6_element_address_bits
+  ctl := Gen.MODESENSE6_control_bits
+  ctl1 := Gen.MODESENSE6_control_extension_1_bits
+  dr := Gen.MODESENSE6_disconnect_reconnect_bits
+  zero_c := by decide +kernel
+  sub_c := by decide +kernel
+  ea_c := by decide +kernel
+  ctl_c := by decide +kernel
+  ctl1_c := by decide +kernel
+  dr_c := by decide +kernel
+  zero_pc := by decide +kernel
+  sub_pc := by decide +kernel
+  sub_sp := by decide +kernel
+  zero_nosub := by decide +kernel
+  d_ea := by decide +kernel
+  d_ctl := by decide +kernel
+  d_dr := by decide +kernel
+  d_ctl1 := by decide +kernel
+
+def T10 : ModeTables where
+  zero := Gen.MODESENSE10_page_zero_bits
+  sub := Gen.MODESENSE10_sub_page_bits
+  ea := Gen.MODESENSE10_element_address_bits
+  ctl := Gen.MODESENSE10_control_bits
+  ctl1 := Gen.MODESENSE10_control_extension_1_bits
+  dr := Gen.MODESENSE10_disconnect_reconnect_bits
+  zero_c := by decide +kernel
+  sub_c := by decide +kernel
+  ea_c := by decide +kernel
+  ctl_c := by decide +kernel
+  ctl1_c := by decide +kernel
+  dr_c := by decide +kernel
+  zero_pc := by decide +kernel
+  sub_pc := by decide +kernel
+  sub_sp := by decide +kernel
+  zero_nosub := by decide +kernel
+  d_ea := by decide +kernel
+  d_ctl := by decide +kernel
+  d_dr := by decide +kernel
+  d_ctl1 := by decide +kernel
+
+theorem hdr6_c : compatible Gen.MODESENSE6_mode_parameter_header_bits modeHeader6.rel 4 = true := by decide +kernel
+theorem hdr10_c : compatible Gen.MODESENSE10_mode_parameter_header_bits modeHeader10.rel 8 = true := by decide +kernel
+
+theorem hdr_set (lay : Layout) (v : Vals) (x : PV) (h : lay.all (fun kf => kf.1 != "mode_pages") = true) :
+    (reported lay v).set "mode_pages" x = reported lay v ++ [("mode_pages", x)] := by
+  apply set_fresh
+  intro kv hkv
+  have : kv.1 ∈ (reported lay v).map (·.1) := List.mem_map.mpr ⟨kv, hkv, rfl⟩
+  rw [reported_keys] at this
+  obtain ⟨kf, hkf, hkf'⟩ := List.mem_map.mp this
+  simp only [List.all_eq_true, bne_iff_ne, ne_eq] at h
+  rw [← hkf']
+  exact h kf hkf
+
+/-- a well-formed MODE SENSE header: values fit, BLOCK DESCRIPTOR LENGTH is the length of the block descriptors -/
+def ModeHdrOK (b : Block) (hv : Vals) (bd : Bytes) : Prop := InRangeD b.rel hv ∧ hv "block_descriptor_length" = bd.length
+
+/-- **MODE SENSE(6)**, page_0 format page the library knows (02h, 0Ah, 1Dh): header, the block
+    descriptors skipped whatever their length, every field of the page -/
+theorem modeSense6_known_page (hv pv bv : Vals) (bd tr : Bytes) (B : Block) (lay : Layout) (hh : ModeHdrOK modeHeader6 hv bd)
+    (hp : InRangeD modePage0Header.rel pv) (hspf : pv "spf" = 0) (hB : page0Body T6 (pv "page_code") = some (B, lay))
+    (hb : InRangeD B.rel bv) :
+    Dec.modeSense6 (encModeSense6 hv bd (encModePage0 pv (B.enc bv)) ++ tr) =
+      .ok (.dict (reported Gen.MODESENSE6_mode_parameter_header_bits hv ++
+        [("mode_pages", .list [.dict (reported T6.zero pv ++ reported lay bv)])])) := by
+  unfold Dec.modeSense6
+  refine (modeSense6_frame _ hdr6_c T6 hv bd _ tr hh.1 hh.2).trans ?_
+  rw [modePage_page0_known T6 pv bv B lay hp hspf hB hb tr]
+  simp only [bind, Except.bind, pure, Except.pure]
+  rw [hdr_set _ _ _ (by decide +kernel)]
+
+/-- MODE SENSE(6), page_0 format page with any other page code: header and the page's own header fields -/
+theorem modeSense6_other_page (hv pv : Vals) (bd body tr : Bytes) (hh : ModeHdrOK modeHeader6 hv bd)
+    (hp : InRangeD modePage0Header.rel pv) (hspf : pv "spf" = 0) (hB : page0Body T6 (pv "page_code") = none) :
+    Dec.modeSense6 (encModeSense6 hv bd (encModePage0 pv body) ++ tr) =
+      .ok (.dict (reported Gen.MODESENSE6_mode_parameter_header_bits hv ++
+        [("mode_pages", .list [.dict (reported T6.zero pv)])])) := by
+  unfold Dec.modeSense6
+  refine (modeSense6_frame _ hdr6_c T6 hv bd _ tr hh.1 hh.2).trans ?_
+  rw [modePage_page0_other T6 pv body hp hspf hB tr]
+  simp only [bind, Except.bind, pure, Except.pure]
+  rw [hdr_set _ _ _ (by decide +kernel)]
+
+/-- MODE SENSE(6), Control Extension page (0Ah/01h, sub_page format) -/
+theorem modeSense6_control_ext (hv pv bv : Vals) (bd tr : Bytes) (hh : ModeHdrOK modeHeader6 hv bd)
+    (hp : InRangeD modeSubPageHeader.rel pv) (hspf : pv "spf" = 1) (hpc : pv "page_code" = 0x0A)
+    (hsp : pv "sub_page_code" = 1) (hb : InRangeD modeControlExt.rel bv) :
+    Dec.modeSense6 (encModeSense6 hv bd (encModeSubPage pv (modeControlExt.enc bv)) ++ tr) =
+      .ok (.dict (reported Gen.MODESENSE6_mode_parameter_header_bits hv ++
+        [("mode_pages", .list [.dict (reported T6.sub pv ++ reported T6.ctl1 bv)])])) := by
+  unfold Dec.modeSense6
+  refine (modeSense6_frame _ hdr6_c T6 hv bd _ tr hh.1 hh.2).trans ?_
+  rw [modePage_control_ext T6 pv bv hp hspf hpc hsp hb tr]
+  simp only [bind, Except.bind, pure, Except.pure]
+  rw [hdr_set _ _ _ (by decide +kernel)]
+
+/-- **MODE SENSE(10)**, page_0 format page the library knows (02h, 0Ah, 1Dh) -/
+theorem modeSense10_known_page (hv pv bv : Vals) (bd tr : Bytes) (B : Block) (lay : Layout) (hh : ModeHdrOK modeHeader10 hv bd)
+    (hp : InRangeD modePage0Header.rel pv) (hspf : pv "spf" = 0) (hB : page0Body T10 (pv "page_code") = some (B, lay))
+    (hb : InRangeD B.rel bv) :
+    Dec.modeSense10 (encModeSense10 hv bd (encModePage0 pv (B.enc bv)) ++ tr) =
+      .ok (.dict (reported Gen.MODESENSE10_mode_parameter_header_bits hv ++
+        [("mode_pages", .list [.dict (reported T10.zero pv ++ reported lay bv)])])) := by
+  unfold Dec.modeSense10
+  refine (modeSense10_frame _ hdr10_c T10 hv bd _ tr hh.1 hh.2).trans ?_
+  rw [modePage_page0_known T10 pv bv B lay hp hspf hB hb tr]
+  simp only [bind, Except.bind, pure, Except.pure]
+  rw [hdr_set _ _ _ (by decide +kernel)]
+
+/-- MODE SENSE(10), page_0 format page with any other page code -/
+theorem modeSense10_other_page (hv pv : Vals) (bd body tr : Bytes) (hh : ModeHdrOK modeHeader10 hv bd)
+    (hp : InRangeD modePage0Header.rel pv) (hspf : pv "spf" = 0) (hB : page0Body T10 (pv "page_code") = none) :
+    Dec.modeSense10 (encModeSense10 hv bd (encModePage0 pv body) ++ tr) =
+      .ok (.dict (reported Gen.MODESENSE10_mode_parameter_header_bits hv ++
+        [("mode_pages", .list [.dict (reported T10.zero pv)])])) := by
+  unfold Dec.modeSense10
+  refine (modeSense10_frame _ hdr10_c T10 hv bd _ tr hh.1 hh.2).trans ?_
+  rw [modePage_page0_other T10 pv body hp hspf hB tr]
+  simp only [bind, Except.bind, pure, Except.pure]
+  rw [hdr_set _ _ _ (by decide +kernel)]
+
+/-- MODE SENSE(10), Control Extension page (0Ah/01h, sub_page format) -/
+theorem modeSense10_control_ext (hv pv bv : Vals) (bd tr : Bytes) (hh : ModeHdrOK modeHeader10 hv bd)
+    (hp : InRangeD modeSubPageHeader.rel pv) (hspf : pv "spf" = 1) (hpc : pv "page_code" = 0x0A)
+    (hsp : pv "sub_page_code" = 1) (hb : InRangeD modeControlExt.rel bv) :
+    Dec.modeSense10 (encModeSense10 hv bd (encModeSubPage pv (modeControlExt.enc bv)) ++ tr) =
+      .ok (.dict (reported Gen.MODESENSE10_mode_parameter_header_bits hv ++
+        [("mode_pages", .list [.dict (reported T10.sub pv ++ reported T10.ctl1 bv)])])) := by
+  unfold Dec.modeSense10
+  refine (modeSense10_frame _ hdr10_c T10 hv bd _ tr hh.1 hh.2).trans ?_
+  rw [modePage_control_ext T10 pv bv hp hspf hpc hsp hb tr]
+  simp only [bind, Except.bind, pure, Except.pure]
+  rw [hdr_set _ _ _ (by decide +kernel)]
+
+/-- the hypotheses are satisfiable: a Control page behind one 8-byte block descriptor -/
+example : ∃ (hv pv bv : Vals) (bd : Bytes), ModeHdrOK modeHeader10 hv bd ∧ bd.length = 8 ∧ InRangeD modePage0Header.rel pv ∧
+    pv "spf" = 0 ∧ page0Body T10 (pv "page_code") = some (modeControl, T10.ctl) ∧ InRangeD modeControl.rel bv ∧ bv "swp" = 1 := by
+  refine ⟨fun k => if k = "block_descriptor_length" then 8 else if k = "mode_data_length" then 26 else 0,
+          fun k => if k = "page_code" then 0x0A else if k = "page_length" then 10 else 0,
+          fun k => if k = "swp" then 1 else 0, List.replicate 8 0x55, ⟨?_, rfl⟩, rfl, ?_, rfl, rfl, ?_, rfl⟩
+  all_goals (intro g hg; revert g; decide)
 
 end C04
